@@ -423,7 +423,7 @@ pub fn run(ctx: &mut Ctx) {
     ctx.note("fixtures_loaded", json!(fixtures.len()));
 
     // L1: raw random bytes
-    let total = if small { 40 } else { ctx.size(60_000, 4_000_000) };
+    let total = if small { 32 } else { ctx.size(60_000, 4_000_000) };
     for n in ctx.cases("L1-random-bytes", total) {
         let mut rng = ctx.begin("L1-random-bytes", n);
         let len = rng.range_usize(0, 64);
@@ -440,7 +440,7 @@ pub fn run(ctx: &mut Ctx) {
     }
 
     // L2: byte-level mutations of the repository fixtures and of generated documents
-    let total = if small { 30 } else { ctx.size(60_000, 4_000_000) };
+    let total = if small { 32 } else { ctx.size(60_000, 4_000_000) };
     for n in ctx.cases("L2-mutations", total) {
         let mut rng = ctx.begin("L2-mutations", n);
         let (label, base): (String, Vec<u8>) = if !fixtures.is_empty() && rng.chance(1, 3) && !small {
@@ -456,7 +456,7 @@ pub fn run(ctx: &mut Ctx) {
     }
 
     // L3: structure-aware hostile documents
-    let total = if small { 40 } else { ctx.size(120_000, 8_000_000) };
+    let total = if small { 48 } else { ctx.size(120_000, 8_000_000) };
     for n in ctx.cases("L3-hostile-documents", total) {
         let mut rng = ctx.begin("L3-hostile-documents", n);
         let (text, fam) = hostile_doc(&mut rng, 0);
@@ -471,7 +471,7 @@ pub fn run(ctx: &mut Ctx) {
 
     // L3b: sections nested to depth 1..200 (beyond serde_json's recursion limit)
     if ctx.shard == 0 || ctx.only.is_some() {
-        for n in ctx.cases_unsharded("L3-deep-sections", if small { 4 } else { 60 }) {
+        for n in ctx.cases_unsharded("L3-deep-sections", if small { 2 } else { 60 }) {
             ctx.begin("L3-deep-sections", n);
             let depth = if n < 40 { n as usize + 1 } else { 40 + (n as usize - 40) * 8 };
             ctx.bucket("L3:deeply-nested-sections");
@@ -479,7 +479,7 @@ pub fn run(ctx: &mut Ctx) {
         }
         // the fixtures themselves, unmodified
         for (i, (name, b)) in fixtures.iter().enumerate() {
-            if small && b.len() > 2000 {
+            if small {
                 continue;
             }
             ctx.begin("fixtures", i as u64);
